@@ -216,8 +216,8 @@ def search_configs(tier: str) -> List[Any]:
         packs = ["base", "norm+sym", "inf2", "rfac", "rfaconly", "ver:a,b", "sfac"]
         stats_list = [(), ("a", "ab")]
     else:
-        packs = ["base", "norm", "sym", "norm+sym", "inf1", "inf2", "inf2r", "rfac", "rfaconly", "rfac+sym", "ver:a,b", "ver:e", "sfac", "two", "noinit", "dropempty"]
-        stats_list = [(), ("a",), ("a", "ab")]
+        packs = ["base", "sym", "norm+sym", "inf1", "inf2", "rfac", "rfaconly", "rfac+sym", "ver:a,b", "sfac", "two", "noinit"]
+        stats_list = [(), ("a", "ab")]
     for c in classes:
         for st in stats_list:
             for pk in packs:
